@@ -26,11 +26,12 @@ CLAIMED = {
          "The schedule-dependent part is the coordinator's seen-set under interleaved ScanDir/Preprocess results; naming and classification are checked as a by-product on every generated tree."),
  "C17": ("exploration", "5.C17", "swarm over (process cwd, base dir, depth, shell, entry point) per simulated run; oracles on captured pwd / TXTPP_FILE / argument shown by a printf shell / exit status; CLI guard through the real binary",
          "No schedule occurs in the statement; the simulator contributes the per-run draw of every environment knob. CLI cases run the real binary under OS scheduling and assert only schedule-independent facts."),
+ "C18": ("exploration", "5.C18", "token- and byte-level fuzzed projects x modes x thread counts 0..16 under the controller: panic hook on every thread + deterministic livelock / task-cap / watchdog detectors + worker-process death detection",
+         "The liveness half is what simulation adds: a worker that dies leaves done < total forever, which the controller reports at once with the schedule instead of as a timeout. Fuzzed command text is never executed (shell is echo / false / non-existent)."),
 }
 
 NA = {
  "C01": "claimed later in this build (R-spec engine not yet registered)",
- "C18": "claimed later in this build (fuzz engine not yet registered)",
  "C12": "pure function of one source text (line-ending normalisation): no schedule, clock, fault, crash point or interleaving for a simulator to vary; DESIGN.md section 6",
  "C13": "pure function of (source text, one boolean option): nothing for a scheduler or fault injector to vary; DESIGN.md section 6",
  "C14": "pure function of the line sequence; HashMap order is erased by a position sort; quantifier is bounded-exhaustive enumeration, a different technique; DESIGN.md section 6",
